@@ -481,7 +481,9 @@ func (r *transport) backgroundRevalidate(
 	refs internal.ResponseRefs,
 	refIndex int,
 ) {
-	ctx, cancel := context.WithTimeout(req.Context(), r.swrTimeout)
+	// The caller has its answer already and may cancel its context at any moment (deferred cancel,
+	// http.Client.Timeout on body close): the revalidation is bounded by the configured timeout only.
+	ctx, cancel := context.WithTimeout(context.WithoutCancel(req.Context()), r.swrTimeout)
 	defer cancel()
 	req = req.WithContext(ctx)
 	errc := make(chan error, 1)
